@@ -564,6 +564,8 @@ type c04Case struct {
 	// HTTPTimeout: "" = not given (the default, -1: none); otherwise the value of --http-timeout. 0 also means "no
 	// timeout" (every consumer of the setting treats values <= 0 alike); 60 is far above anything a case needs.
 	HTTPTimeout string `json:"http_timeout,omitempty"`
+	// Big: the first page fetched (/boot) is about 3 MB of HTML (spooled to a file in the job's temp directory while it is processed)
+	Big bool `json:"big_first_page,omitempty"`
 	// Seencheck: run with the local seen-store on (the default of the command line) instead of --disable-seencheck
 	Seencheck bool `json:"seencheck,omitempty"`
 }
@@ -680,6 +682,9 @@ func runC04(t veriflib.TB, c c04Case) (res c04Result) {
 		t.Fatalf("harness: origin: %v", err)
 	}
 	defer o.Close()
+	if c.Big {
+		o.BigPath = "/boot"
+	}
 	jobDir := filepath.Join(dir, "jobs", "j1")
 	os.MkdirAll(jobDir, 0o755)
 	dbPath := filepath.Join(jobDir, "lq.db")
@@ -1004,7 +1009,11 @@ func TestVerif_C04_Proc(t *testing.T) {
 		t.Skip()
 	}
 	// one directed case per shard: the multi-step fault kinds are too rare to rely on random draws in the quick tier
-	if i := veriflib.ShardIndex(); i == 1 {
+	if i := veriflib.ShardIndex(); i == 3 {
+		// killed while the 3 MB body of the first page sits in a spool file in the job's temp directory: the restarted job
+		// finds that directory non-empty
+		propC04(t, c04Case{Rows: 6, Workers: 1, Assets: 1, Fault: "kill-hook", Point: "archiver.afterFeedback", N: 1, Big: true})
+	} else if i == 1 {
 		// a wide crawl killed right after its second batch of rows was claimed: far more than a hundred rows are CLAIMED
 		// when the job is started again
 		propC04(t, c04Case{Rows: 260, Workers: 120, Assets: 0, Fault: "kill-hook", Point: "lq.get.committed", N: 2})
@@ -1022,7 +1031,6 @@ func TestVerif_C04_Proc(t *testing.T) {
 		propC04(rt, c)
 	})
 }
-
 
 // Strict reproduction of the open finding C04-seen-before-captured: default seen-store, a kill while the second request
 // is being served.
